@@ -13,6 +13,8 @@
 * structural check of evaluate_cubic_bspline(transpose=False): on symbolic coefficients and symbolic kernels, for
   D = 1, 2, 3, small sizes / strides, every output sample must be  sum_k W[o][k] c[q + k]  (tensor product), cropped
   at the front -- the closed form of Model/BSpline.v.
+* the same for evaluate_cubic_bspline(transpose=True): traced through core.image.conv / conv1d / F.conv_transpose1d with
+  symbolic kernels, every cropped sample must be the gather form  sum_j c[j] prod ker[x + s + p - j s]  (the evT* model)
 Float literals are read as the simplest rational with the same double (1/6 for 0.16666666666666666)."""
 import itertools
 import re
@@ -632,6 +634,86 @@ def check_evaluate(bs):
                 raise TraceError("stride / derivative sequences are not in (x, y) order")
 
 
+class int_tolist:
+    """Tensor.tolist() of an integer tensor gives Python ints (as torch does); needed by core/nnutils.same_padding"""
+
+    def __enter__(self):
+        self.orig = st.Tensor.tolist
+        orig = self.orig
+
+        def tolist(t):
+            r = orig(t)
+            if t.dtype.is_floating_point:
+                return r
+
+            def conv(x):
+                if isinstance(x, list):
+                    return [conv(v) for v in x]
+                if isinstance(x, E) and x.is_const() and x.value().denominator == 1:
+                    return int(x.value())
+                return x
+            return conv(r)
+
+        st.Tensor.tolist = tolist
+        return self
+
+    def __exit__(self, *a):
+        st.Tensor.tolist = self.orig
+        return False
+
+
+def check_evaluate_transposed(bs, btable):
+    """evaluate_cubic_bspline(transpose=True) through core.image.conv / conv1d / F.conv_transpose1d with symbolic kernels:
+    every cropped output sample must be  sum_j c[j] prod_axes ker_axis[pos + s + p - j s]  (p = same_padding = 2 s - 1)"""
+    cases = [((4,), (1,), (1,)), ((5,), (2,), (3,)), ((4, 5), (2, 1), (3, 2)), ((5, 4), (1, 3), (2, 4)), ((4, 4, 5), (2, 1, 3), (4, 1, 2))]
+    with int_tolist():
+        for shape, strides, crop_x in cases:  # shape tensor order; strides and crop size in (x, y, ..) order
+            D = len(shape)
+            data = np.empty((1, 2) + shape, dtype=object)
+            for idx in np.ndindex(data.shape):
+                data[idx] = E.var("c_" + "_".join(map(str, idx)))
+            kernels = [st.Tensor(np.array([E.var(f"k{ax}_{i}") for i in range(4 * s - 1)], dtype=object)) for ax, s in enumerate(strides)]
+            rng = np.random.RandomState(3)
+            env = {e.args[0]: Fraction(int(rng.randint(-9, 10)), 4) for e in data.reshape(-1)}
+            for kt in kernels:
+                for e in kt.a:
+                    env[e.args[0]] = Fraction(int(rng.randint(-9, 10)), 3)
+            crop_t = tuple(reversed(crop_x))
+            for kw in ({"shape": crop_t}, {"size": crop_x}):
+                r = bs.evaluate_cubic_bspline(st.Tensor(data), stride=strides if D > 1 else strides[0], kernel=kernels, transpose=True, **kw)
+                if r.shape != (1, 2) + crop_t:
+                    raise TraceError(f"evaluate_cubic_bspline(transpose=True) output shape {r.shape}, expected {(1, 2) + crop_t}")
+                for idx in np.ndindex(r.a.shape):
+                    c_, pos = idx[1], idx[2:]
+                    want = Fraction(0)
+                    for js in itertools.product(*[range(n) for n in shape]):
+                        term = env["c_" + "_".join(map(str, (0, c_) + js))]
+                        for td in range(D):
+                            ax = D - 1 - td
+                            s_ = strides[ax]
+                            ki = pos[td] + s_ + (2 * s_ - 1) - js[td] * s_
+                            if not 0 <= ki < 4 * s_ - 1:
+                                term = 0
+                                break
+                            term *= env[f"k{ax}_{ki}"]
+                        want += term
+                    if fr_eval(r.a[idx], env) != want:
+                        raise TraceError(f"evaluate_cubic_bspline(transpose=True) sample {idx} (coefficients {shape}, strides {strides}, "
+                                         f"crop {crop_x}) is not the transposed-convolution closed form")
+        # kernel=None: the kernels are cubic_bspline1d(stride) in (x, y) order
+        data = np.empty((1, 1, 4, 5), dtype=object)
+        for idx in np.ndindex(data.shape):
+            data[idx] = E.var("c_" + "_".join(map(str, idx)))
+        with simple_float_literals():
+            a = bs.evaluate_cubic_bspline(st.Tensor(data), stride=(2, 1), transpose=True, size=(3, 1))
+            from_k = bs.evaluate_cubic_bspline(st.Tensor(data), stride=(2, 1), transpose=True, size=(3, 1),
+                                               kernel=[bs.cubic_bspline1d(2), bs.cubic_bspline1d(1)])
+        env = {e.args[0]: Fraction(3 * i % 11 - 5, 2) for i, e in enumerate(data.reshape(-1))}
+        if a.shape != from_k.shape or any(abs(fr_eval(x, env) - fr_eval(y, env)) > Fraction(1, 10 ** 9)
+                                           for x, y in zip(a.a.reshape(-1), from_k.a.reshape(-1))):
+            raise TraceError("evaluate_cubic_bspline(transpose=True, kernel=None) does not use cubic_bspline1d(stride) per axis in (x, y) order")
+
+
 def generate(loader):
     bs = loader.load("deepali.core.bspline")
     ker = loader.load("deepali.core.kernels")
@@ -646,4 +728,5 @@ def generate(loader):
     out.append("End Gen.\n")
     out += ctrl_size_section(bs)
     check_evaluate(bs)
+    check_evaluate_transposed(bs, None)
     return "\n".join(out)
